@@ -126,7 +126,9 @@ Definition step (s : sim) : outcome * option obs :=
     let trs4 := if Nat.eqb nfin 0 then trs3 else compact_ids (trs s1) trs3 in
     let E' := (E - nfin)%nat in
     let d3 := if Nat.eqb nfin 0 then d2
-              else tab2 N (WW Pm E') (fun f j => if Nat.ltb j (N + F) then get d2 f j else 0) in
+              else tab2 N (WW Pm E') (fun f j =>
+                     if Nat.ltb j (N + F) then get d2 f j
+                     else moved_cell Pm E E' (kept_ids E trs3) d2 f (j - (N + F))) in
     let trs5 := recover_ledgers (prec e) t trs4 in
     (* 3) orders *)
     let optv' := opt Pm (dtot_of E' d3) capv in
